@@ -40,6 +40,8 @@ static std::string stats_json() {
     return s;
 }
 
+namespace sim { void synth_debug(u64, u64); }
+void synth_debug_entry(u64 a, u64 b) { sim::synth_debug(a, b); }
 static u64 mode_salt(const std::string &m) { Hasher h; h.s(m); return h.h; }
 
 int main(int argc, char **argv) {
@@ -83,6 +85,7 @@ int main(int argc, char **argv) {
     }
     if (gen) { u64 seed = mix64(mix64(base, mode_salt(mode)), index); Plan p = generate(mode, seed, index); printf("%s\n", plan_str(p).c_str()); return 0; }
     if (mode.empty()) { fprintf(stderr, "need --mode\n"); return 3; }
+    if (mode == "synthdbg") { extern void synth_debug_entry(u64, u64); synth_debug_entry(from, to); return 0; }
     if (mode == "info") { printf("INFO fuzzreg=%zu fonts=%zu\n", fuzzreg_count(), g_pool.font_names.size()); return 0; }
     u64 samples = 0;
     for (u64 i = from; i < to; ++i) {
